@@ -11,7 +11,12 @@
 //
 // Tolerances (frozen, DESIGN section 5/C12; H = (1+|x|)*h is the step the header documents):
 //   rounding     R1 = 24*eps*F/H      R2 = 32*eps*F/H^2      Rcross = 32*eps*F/(Ha*Hb)
-//                (for the three-point one-sided fallback the stencil spacing is H/2, which takes the place of H)
+//                (for the three-point one-sided fallback the stencil spacing is H/2, which takes the place of H; the
+//                five-point second derivative has absolute weight sum 64/12 against 4 of the three-point one: R2 = 48*eps*F/H^2)
+//   calibration: thorough tier on the unchanged tree (564k histories) and 2 x 20000 histories on a copy with the proposed
+//                fixes and no exclusion; worst seen, in units eps*F/H, eps*F/H^2, eps*F/HaHb:
+//                d1 central 3.0 of 24, 3-point one-sided 3.3 of 48; d2 3-point central 2.9 of 32, one-sided 14.1 of 128,
+//                5-point central 4.9 of 48, one-sided 3.4 of 48; cross 0.37 of 32.
 //   truncation   2-point            d1: H/2*M2
 //                3-point central    d1: H^2/6*M3     d2: H^2/12*M4    cross: Ha^2/6*M31 + Hb^2/6*M13
 //                3-point one-sided  d1: H*M2         d2: H*M3         (mean value theorem, probes within H of x)
@@ -232,7 +237,7 @@ struct Oracle {
         c.trunc1 = h * h / 6 * M3; c.trunc2 = h * h / 12 * M4; c.r1 = 24 * EPSL * F / h; c.r2 = 32 * EPSL * F / (h * h);
         o.trunc1 = h * M2; o.trunc2 = h * M3; o.r1 = 24 * EPSL * F / (h / 2); o.r2 = 32 * EPSL * F / (h / 2 * h / 2); break;
       default:
-        c.trunc1 = h * h * h * h / 30 * M5; c.trunc2 = h * h * h * h / 90 * M6; c.r1 = 24 * EPSL * F / h; c.r2 = 32 * EPSL * F / (h * h);
+        c.trunc1 = h * h * h * h / 30 * M5; c.trunc2 = h * h * h * h / 90 * M6; c.r1 = 24 * EPSL * F / h; c.r2 = 48 * EPSL * F / (h * h);
         o.trunc1 = h / 2 * M2; o.trunc2 = 2 * h * M3; o.r1 = c.r1; o.r2 = c.r2; break;
     }
     if (centralSure) { c.mode = 0; return c; }
@@ -246,12 +251,6 @@ struct Oracle {
     return dl <= H[a] * factor || du <= H[a] * factor;
   }
 };
-
-// the polynomial has a term of degree >= 3 containing both variables: its cross derivative is not constant
-bool crossVaries(const Poly& P, int a, int b) {
-  for (auto& m : P.t) { int d = 0; for (int j = 0; j < P.n; ++j) d += m.e[j]; if (m.e[a] >= 1 && m.e[b] >= 1 && d >= 3) return true; }
-  return false;
-}
 
 // ------------------------------------------------------------------ the oracle applied after an update
 // named[j]: variable j was in the list of the latest update.
@@ -278,14 +277,12 @@ void checkAfter(vf::Ctx& c, Sys& s, const vector<bool>& named, const string& whe
       LD err = fabsl(static_cast<LD>(r.v) - ref);
       if (tr == 0 && rr > 0) c.observe("cross_rounding_units(eps*F/HaHb)", static_cast<double>(err / (EPSL * o.F / (o.H[a] * o.H[b]))));
       bool ok = std::isfinite(r.v) && err <= tr + rr;
-      if (!ok && crossVaries(P, a, b)) c.excludeIfKnown("C12-cross-centre");
       CHECK(ok, where << ": cross derivative d2f/dx" << a << "dx" << b << " = " << vf::dec(r.v) << " but analytic " << vf::dec(static_cast<double>(ref))
                       << ", error " << vf::dec(static_cast<double>(err)) << " > truncation " << vf::dec(static_cast<double>(tr)) << " + rounding " << vf::dec(static_cast<double>(rr)));
     }
   }
 
   // ---- (T) transparency
-  if (crossActive) c.excludeIfKnown("C12-cross-restore");
   double expect = static_cast<double>(P.value(s.cur));
   for (int j = 0; j < n; ++j) {
     double v = s.fn->getParameterValue(nm(j));
@@ -369,6 +366,10 @@ bool applyUpdate(vf::Ctx& c, Sys& s, const Upd& u, const string& where) {
   for (size_t q = 0; q < u.order.size(); ++q) s.cur[u.order[q]] = u.val[q];
   s.fn->log.clear(); long raises0 = s.fn->nRaise;
   double expect = static_cast<double>(s.cfg.P.value(s.cur));
+  {  // known finding: the cross-derivative loop of the three-point scheme mismanages which variables are perturbed
+    int cnt = 0; for (int j : s.cfg.sel) if (named[j]) ++cnt;
+    if (s.cfg.scheme == 1 && s.cfg.cross && cnt >= 2) c.excludeIfKnown("C12-cross-bookkeeping");
+  }
   try {
     switch (u.entry) {
       case 0: s.w->setParameters(pl); break;
@@ -381,9 +382,8 @@ bool applyUpdate(vf::Ctx& c, Sys& s, const Upd& u, const string& where) {
   } catch (Exception& e) {
     if (typeid(e) != typeid(Exception) || string(e.what()).find(CROSS_AT_LIMIT) == string::npos || !(s.cfg.scheme == 1 && s.cfg.cross)) throw;
     // documented refusal: accepted only when a corner of a central cross stencil can leave the box
-    Oracle o(s); bool near1 = false, near25 = false; int cnt = 0;
-    for (int j : s.cfg.sel) if (named[j]) { ++cnt; near1 |= o.nearBound(j, 1 + 1e-9L); near25 |= o.nearBound(j, 2.5L); }
-    if (!near1 && near25) c.excludeIfKnown("C12-cross-centre");
+    Oracle o(s); bool near1 = false; int cnt = 0;
+    for (int j : s.cfg.sel) if (named[j]) { ++cnt; near1 |= o.nearBound(j, 1 + 1e-9L); }
     CHECK(cnt >= 2 && near1, where << ": raised '" << e.what() << "' although every corner of every cross stencil lies inside the box");
     c.label("cross_at_limit_raised");
     return false;
@@ -457,7 +457,7 @@ double genH(vf::Ctx& c, bool& setH) {
 }  // namespace
 
 // ------------------------------------------------------------------ L1 histories
-LAW(L1_history, RC, 6000, 250000, 420, "a requested value within 2 steps of a bound, or a partial update list, or >=2 selected variables with cross derivatives") {
+LAW(L1_history, RC, 30000, 1500000, 420, "a requested value within 2 steps of a bound, or a partial update list, or >=2 selected variables with cross derivatives") {
   Cfg g;
   g.scheme = static_cast<int>(c.weighted({2, 3, 2}));
   g.kind = static_cast<int>(c.below(g.scheme == 0 ? 2 : 3));
@@ -466,7 +466,7 @@ LAW(L1_history, RC, 6000, 250000, 420, "a requested value within 2 steps of a bo
   g.P = genPoly(c, n, deg, 6);
   for (int j = 0; j < n; ++j) g.box.push_back(genBox(c));
   { vector<int> sub; for (int j = 0; j < n; ++j) if (!c.oneIn(4)) sub.push_back(j); g.sel = genOrder(c, sub); }
-  g.cross = g.scheme == 1 && c.oneIn(3);
+  g.cross = g.scheme == 1 && c.oneIn(4);
   vector<double> x0; for (int j = 0; j < n; ++j) x0.push_back(c.oneIn(3) ? genVal(c, g.box[j], g.h) : midOf(g.box[j]));
   c.desc << g.show() << " start(";
   for (int j = 0; j < n; ++j) c.desc << (j ? "," : "") << vf::dec(x0[j]);
@@ -524,13 +524,10 @@ LAW(L2_config_enum, ENUM, 0, 0, 0, "a partial update list, or x1 moved onto its 
   u.entry = static_cast<int>(c.below(6));
   bool onBound = c.flag();
   unsigned mask = u.entry == 1 ? 7u : u.entry == 2 ? (1u << c.below(3)) : static_cast<unsigned>(c.below(8));
-  bool rev = (u.entry != 2 && mask != 0) ? c.flag() : false;
-  u.withCons = c.flag();
+  bool rev = (si + mask) % 2 == 1;              // order of the list and kind of list are tied to the other choices
+  u.withCons = (mask + static_cast<unsigned>(u.entry)) % 2 == 0;   // (both vary freely in L1)
   c.desc << g.show() << " entry " << ENTRY[u.entry] << (u.withCons ? "" : "[plain]") << " named mask " << mask << (rev ? " reversed" : "") << (onBound ? " x1->0 (on its bound)" : " x1->1.5");
   c.shardPoint();
-  if (g.cross && onBound && (mask & 2u)) {
-    // documented refusal of cross derivatives at a limit when x1 is named and selected together with another one: still run (applyUpdate accepts it)
-  }
   Sys s(g, {0.25, 2.0, 0.75});
   Upd first; first.entry = 0; first.withCons = true; first.order = {0, 1, 2}; first.val = {1.0, 0.5, -2.0};
   if (!applyUpdate(c, s, first, "after the initial full setParameters")) return;
@@ -565,6 +562,7 @@ LAW(L3_halving, RC, 3000, 100000, 64, "the truncation error at step h exceeds 10
   Sys s1(g, x0), s2(g2, x0);
   ParameterList pl; for (int j = 0; j < n; ++j) pl.addParameter(Parameter(nm(j), x[j]));
   s1.cur = x; s2.cur = x;
+  if (g.cross) c.excludeIfKnown("C12-cross-bookkeeping");
   s1.w->setParameters(pl); s2.w->setParameters(pl);
   Oracle o1(s1), o2(s2);
   const LD ratio = g.scheme == 0 ? 2 : g.scheme == 1 ? 4 : 16;
@@ -592,7 +590,6 @@ LAW(L3_halving, RC, 3000, 100000, 64, "the truncation error at step h exceeds 10
       LD r1 = 32 * EPSL * o1.F / (o1.H[a] * o1.H[b]), r2 = 32 * EPSL * o2.F / (o2.H[a] * o2.H[b]);
       if (fabsl(e) > 100 * r1) nt = true;
       bool ok = fabsl(eh - e / 4) <= r2 + r1 / 4;
-      if (!ok && crossVaries(g.P, a, b)) c.excludeIfKnown("C12-cross-centre");
       CHECK(ok, "cross (x" << a << ",x" << b << "): error " << vf::dec(static_cast<double>(e)) << " at h, " << vf::dec(static_cast<double>(eh)) << " at h/2; expected ratio 4, rounding slack " << vf::dec(static_cast<double>(r2 + r1 / 4)));
     }
   }
@@ -603,7 +600,7 @@ LAW(L3_halving, RC, 3000, 100000, 64, "the truncation error at step h exceeds 10
 // Two- and three-point schemes give up after ten attempts ("no possibility to compute derivatives").  Weakest reading:
 // no exception, transparency holds, and the derivative of the unprobeable variable is either not a number or correct —
 // never an arbitrary finite number.
-LAW(L4_narrow_box, RC, 1500, 50000, 64, "the unprobeable variable is not the first selected one") {
+LAW(L4_narrow_box, RC, 1500, 50000, 64, "at least two selected variables, one of them unprobeable") {
   Cfg g;
   g.scheme = static_cast<int>(c.below(2));
   g.kind = static_cast<int>(c.below(g.scheme == 0 ? 2 : 3));
@@ -621,20 +618,12 @@ LAW(L4_narrow_box, RC, 1500, 50000, 64, "the unprobeable variable is not the fir
   c.desc << g.show() << " setParameters(";
   for (int j = 0; j < n; ++j) c.desc << (j ? "," : "") << vf::dec(x[j]);
   c.desc << "), x" << bad << " cannot move";
-  c.nt(g.sel[0] != bad);
+  c.nt(n >= 2);
   Sys s(g, x0);
   ParameterList pl; for (int j = 0; j < n; ++j) pl.addParameter(Parameter(nm(j), x[j]));
   s.cur = x;
   s.w->setParameters(pl);
   Oracle o(s);
-  // derivative of the unprobeable variable
-  Got d1 = got([&] { return s.w->getFirstOrderDerivative(nm(bad)); });
-  CHECK(!d1.raised, "first derivative raised: " << d1.what);
-  Tol t = o.tol(bad);
-  LD ref = g.P.D1(bad, 1, o.xl, false);
-  bool fine = std::isnan(d1.v) || fabsl(static_cast<LD>(d1.v) - ref) <= t.trunc1 + 1024 * t.r1;
-  if (!fine && g.scheme == 0) c.excludeIfKnown("C12-2pt-noprobe");
-  CHECK(fine, "df/dx" << bad << " = " << vf::dec(d1.v) << " although no probe of x" << bad << " was possible (analytic " << vf::dec(static_cast<double>(ref)) << "): an arbitrary finite number instead of NaN");
   // transparency
   if (g.sel[0] != bad) c.excludeIfKnown("C12-noprobe-restore");
   for (int j = 0; j < n; ++j) {
@@ -650,6 +639,14 @@ LAW(L4_narrow_box, RC, 1500, 50000, 64, "the unprobeable variable is not the fir
     LD e = fabsl(static_cast<LD>(s.w->getFirstOrderDerivative(nm(i))) - g.P.D1(i, 1, o.xl, false));
     CHECK(e <= ti.trunc1 + ti.r1, "df/dx" << i << " error " << vf::dec(static_cast<double>(e)) << " > " << vf::dec(static_cast<double>(ti.trunc1 + ti.r1)));
   }
+  // derivative of the unprobeable variable
+  Got d1 = got([&] { return s.w->getFirstOrderDerivative(nm(bad)); });
+  CHECK(!d1.raised, "first derivative raised: " << d1.what);
+  Tol t = o.tol(bad);
+  LD ref = g.P.D1(bad, 1, o.xl, false);
+  bool fine = std::isnan(d1.v) || fabsl(static_cast<LD>(d1.v) - ref) <= t.trunc1 + 1024 * t.r1;
+  if (g.scheme == 0) c.excludeIfKnown("C12-2pt-noprobe");
+  CHECK(fine, "df/dx" << bad << " = " << vf::dec(d1.v) << " although no probe of x" << bad << " was possible (analytic " << vf::dec(static_cast<double>(ref)) << "): an arbitrary finite number instead of NaN");
 }
 
 static struct Init { Init() { vf::G().resetHook = [] { vf::quietBpp(); vf::installAudit(); }; } } init_;
